@@ -1071,6 +1071,86 @@ theorem readout_is_interleaved (s : State) :
     (readout s).2.gauges = (readoutInterleaved s ((readoutEvents s).map (fun e => (true, e)))).gauges := by
   simp only [readout, readoutInterleaved, runTagged_all, buildEntry, buildEntryWalk, and_self]
 
+open Reporter
+
+/-! ## C20, the reporter task: shutdown publishes the rest -/
+
+theorem runR_append (step : RState → RStep → RState × List Mark) (s : RState) (a b : List RStep) :
+    runR step s (a ++ b) = ((runR step (runR step s a).1 b).1, (runR step s a).2 ++ (runR step (runR step s a).1 b).2) := by
+  induction a generalizing s with
+  | nil => simp [runR]
+  | cons e es ih => simp only [List.cons_append, runR, ih, List.append_assoc]
+
+/-- from any state in which the task has not ended: if the run ends with the task ended, a readout was published
+during it -/
+theorem orig_done_publishes (s : RState) (tr : List RStep) (h0 : s.pc ≠ .done)
+    (hd : (runR stepOrig s tr).1.pc = .done) : Mark.pub ∈ (runR stepOrig s tr).2 := by
+  induction tr generalizing s with
+  | nil => exact absurd hd h0
+  | cons e es ih =>
+    simp only [runR] at hd ⊢
+    by_cases hp : Mark.pub ∈ (stepOrig s e).2
+    · exact List.mem_append_left _ hp
+    · apply List.mem_append_right
+      apply ih _ _ hd
+      cases e with
+      | update => simpa [stepOrig] using h0
+      | cancel => simpa [stepOrig] using h0
+      | task fired =>
+        rcases hpc : s.pc with _ | _ | _ | _
+        · simp [stepOrig, hpc]
+        · simp only [stepOrig, hpc]; split
+          · simp [hpc]
+          · split <;> simp [hpc]
+        · exfalso; apply hp; simp [stepOrig, hpc]
+        · exact absurd hpc h0
+
+/-- without a cancel the task stays in its loop -/
+theorem orig_no_cancel_stays (tr : List RStep) (h : RStep.cancel ∉ tr) (s : RState) (hs : s.pc = .sel)
+    (hc : s.cancelled = false) : (runR stepOrig s tr).1.pc = .sel ∧ (runR stepOrig s tr).1.cancelled = false := by
+  induction tr generalizing s with
+  | nil => exact ⟨hs, hc⟩
+  | cons e es ih =>
+    have hes : RStep.cancel ∉ es := fun h' => h (List.mem_cons_of_mem _ h')
+    simp only [runR]
+    cases e with
+    | update => exact ih hes _ hs hc
+    | cancel => exact absurd (List.mem_cons_self ..) h
+    | task fired =>
+      apply ih hes
+      · simp only [stepOrig, hs]; split
+        · exact hs
+        · simp [hc, hs]
+      · simp only [stepOrig, hs]; split
+        · exact hc
+        · simp [hc]
+
+/-- **C20 (shutdown publishes the rest).** Every run of the program and the reporter task — any interleaving of
+updates, the shutdown's cancel and task steps, with any timer behaviour — in which `shutdown()` completes (the task
+has ended) contains a published readout AFTER the cancel, hence after every update that preceded the shutdown call:
+nothing that was recorded before `shutdown()` was called can be left unreported. -/
+theorem c20_shutdown_publishes_rest (pre post : List RStep) (hpre : RStep.cancel ∉ pre)
+    (hdone : (runR stepOrig initOrig (pre ++ RStep.cancel :: post)).1.pc = .done) :
+    (runR stepOrig initOrig (pre ++ RStep.cancel :: post)).2 =
+      (runR stepOrig initOrig pre).2 ++ (runR stepOrig (runR stepOrig initOrig pre).1 (RStep.cancel :: post)).2 ∧
+    Mark.pub ∈ (runR stepOrig (runR stepOrig initOrig pre).1 (RStep.cancel :: post)).2 := by
+  rw [runR_append] at hdone ⊢
+  refine ⟨rfl, ?_⟩
+  have hstay := orig_no_cancel_stays pre hpre initOrig rfl rfl
+  exact orig_done_publishes _ _ (by rw [hstay.1]; decide) hdone
+
+/-- **Witnesses** that the "deduplicated" loop breaks this: (1) the cancel precedes the task's first poll — the task
+ends without publishing anything, the update is lost; (2) the cancel lands between a periodic publish and the next
+test of the loop condition. The code's loop publishes in both runs. -/
+example :
+    (runR stepDedup initDedup [.update, .cancel, .task false, .task false]) = (⟨.done, true⟩, [.upd]) ∧
+    (runR stepOrig initOrig [.update, .cancel, .task false, .task false]) = (⟨.done, true⟩, [.upd, .pub]) ∧
+    (runR stepDedup initDedup [.task false, .update, .task true, .update, .cancel, .task false, .task false])
+      = (⟨.done, true⟩, [.upd, .pub, .upd]) ∧
+    (runR stepOrig initOrig [.task false, .update, .task true, .update, .cancel, .task false, .task false])
+      = (⟨.done, true⟩, [.upd, .pub, .upd, .pub]) := by
+  decide
+
 /-- Non-vacuity of the sequential readout: a counter with labels, a described histogram; the second readout reports
 nothing for the counter (zero delta dropped) and an empty histogram. -/
 example :
@@ -1111,3 +1191,4 @@ end MetricsRs
 #print axioms MetricsRs.c20_readout_entry
 #print axioms MetricsRs.c20_unit_read_after_walk
 #print axioms MetricsRs.c20_described_before_registered
+#print axioms MetricsRs.c20_shutdown_publishes_rest
